@@ -83,6 +83,18 @@ Fixpoint add_flat (l : Z) (t : node) (names : list Z) (cs : list centry) : resul
       end
   end.
 
+(* the names in the set when the loop of add_components stops: everything before the offending component (a rejected
+   batch is NOT rolled back: the components before it stay registered) *)
+Fixpoint add_flat_prefix (l : Z) (t : node) (names : list Z) (cs : list centry) : list Z :=
+  match cs with
+  | [] => names
+  | (n, d) :: r =>
+      match update layers t d (Some l) n with
+      | CErr _ => names
+      | COk t' => if zmem n names then names else add_flat_prefix l t' (names ++ [n]) r
+      end
+  end.
+
 Definition add_items (l : Z) (t : node) (names : list Z) (is : list item) : result (node * list Z) :=
   match flatten_stack (size_all is) is [] with
   | None => OutOfFuel
@@ -167,6 +179,8 @@ Record ctx_obs := {
   x_built : bool;                 (* construction succeeded *)
   x_setup : bool;                 (* setup succeeded (meaningful if built) *)
   x_log : list Z;                 (* set-up log (if setup succeeded) *)
+  x_partial : option (bool * list Z);   (* add_components on an existing context raised, setup was called all the same:
+                                           did it succeed, and its set-up log *)
   x_cops : list (list cop)        (* what a probe read / tried during its setup (if setup succeeded): each list is run on
                                      the frozen configuration and ends with at most one refused modification *)
 }.
@@ -188,6 +202,33 @@ Definition check_ctx (layers : list Z) (l_mgr l_comp l_spec l_over : Z) (mgrs : 
           same_multiset (x_log c) order && forallb (run_cops layers t) (x_cops c)
       | _ => negb (x_setup c)
       end
-  | Rejected _ => negb (x_built c)
+  | Rejected _ =>
+      negb (x_built c) &&
+      match x_partial c with
+      | None => true
+      | Some (ok, log) =>
+          (* the batch was refused by the component stage; what had been registered before is set up *)
+          match build_cfg layers l_spec l_over (x_spec c) (x_over c) with
+          | COk t2 =>
+              match add_flat layers l_mgr t2 [] mgrs with
+              | Ok (t3, mnames) =>
+                  let reg := add_flat_prefix layers l_comp t3 [] (pre_all (x_forest c)) in
+                  let clog := skipn (length mnames) log in
+                  if ok
+                  then (* nothing at or beyond the offending component is registered: the components set up are the first
+                          k of the model's prefix (k = all of it today; 0 would be a roll-back), each once, managers
+                          first, parents first *)
+                       same_multiset (firstn (length mnames) log) mnames &&
+                       existsb (fun k => same_multiset clog (firstn k reg)) (seq 0 (S (length reg))) &&
+                       znodupb log &&
+                       forallb (fun e => negb (Nat.eqb (count_z (snd e) (map fst (pre_all (x_forest c)))) 1)  (* ambiguous name *)
+                                         || negb (zmem (snd e) clog) || before (fst e) (snd e) clog)
+                               (edges_all (x_forest c))
+                  else negb (znodupb (mnames ++ reg))
+              | _ => false
+              end
+          | CErr _ => false
+          end
+      end
   | OutOfFuel => false
   end.
